@@ -464,4 +464,82 @@ def raceStoreLoad (results : Option Dict) : Dict :=
 /-- what `compare` / `list` see: `GlobalStats(race.results)` of the race read back from `race.json` -/
 def readBack (tbl : List KeySpec) (results : Option Dict) : Dict := gsInit tbl (some (raceStoreLoad results))
 
+/-! ## per-task lookup in `GlobalStats`: `tasks()`, `metrics(task)` (what `compare` uses after the read-back) -/
+
+def sTask : Str := ['t', 'a', 's', 'k']
+def sOperation : Str := ['o', 'p', 'e', 'r', 'a', 't', 'i', 'o', 'n']
+def sOpMetrics : Str := ['o', 'p', '_', 'm', 'e', 't', 'r', 'i', 'c', 's']
+def sThroughput : Str := nThroughput
+def sErrorRate : Str := ['e', 'r', 'r', 'o', 'r', '_', 'r', 'a', 't', 'e']
+def sDuration : Str := ['d', 'u', 'r', 'a', 't', 'i', 'o', 'n']
+def sMin : Str := ['m', 'i', 'n']
+def sMean : Str := ['m', 'e', 'a', 'n']
+def sMedian : Str := ['m', 'e', 'd', 'i', 'a', 'n']
+def sMax : Str := ['m', 'a', 'x']
+def sUnit : Str := ['u', 'n', 'i', 't']
+
+/-- Python `value == task` for a `str` task name: only an equal string compares equal -/
+def jIsStr (v : JVal) (t : Str) : Bool :=
+  match v with
+  | .str s => s == t
+  | _ => false
+
+/-- `r.get("task", r["operation"])`: the default argument is evaluated first, so a record without an
+    `operation` key raises KeyError even if it has a task (pre-0.8.0 records have no `task` key) -/
+def recKeyE (r : Dict) : Except Err JVal :=
+  match dictGet r sOperation with
+  | none => .error .keyError
+  | some op => .ok ((dictGet r sTask).getD op)
+
+/-- `GlobalStats.tasks()` -/
+def tasksE : List Dict → Except Err (List JVal)
+  | [] => .ok []
+  | r :: rs =>
+    match recKeyE r with
+    | .error e => .error e
+    | .ok k =>
+      match tasksE rs with
+      | .error e => .error e
+      | .ok ks => .ok (k :: ks)
+
+/-- `GlobalStats.metrics(task)`: the first record whose task (or, without a task key, operation) is `task` -/
+def metricsE : List Dict → Str → Except Err (Option Dict)
+  | [], _ => .ok none
+  | r :: rs, t =>
+    match recKeyE r with
+    | .error e => .error e
+    | .ok k => if jIsStr k t then .ok (some r) else metricsE rs t
+
+def optNumJ : Option Rat → JVal
+  | none => .null
+  | some q => .flt q
+
+def optStrJ : Option Str → JVal
+  | none => .null
+  | some s => .str s
+
+def summaryToJ (s : Summary) : JVal :=
+  .obj [(sMin, optNumJ s.min), (sMean, optNumJ s.mean), (sMedian, optNumJ s.median), (sMax, optNumJ s.max), (sUnit, optStrJ s.unit)]
+
+def latencyToJ : Option Latency → JVal
+  | none => .obj []
+  | some l => .obj (l.pcts.map (fun kv => (kv.1, JVal.flt kv.2)) ++ [(sMean, optNumJ l.mean), (sUnit, optStrJ l.unit)])
+
+/-- the record `add_op_metrics` appends (without the optional `meta`) -/
+def opToDict (m : OpMetrics) : Dict :=
+  [(sTask, .str m.task), (sOperation, .str m.operation), (sThroughput, summaryToJ m.throughput),
+   (nLatency, latencyToJ m.latency), (nServiceTime, latencyToJ m.serviceTime), (nProcessingTime, latencyToJ m.processingTime),
+   (sErrorRate, .flt m.errorRate), (sDuration, optNumJ m.duration)]
+
+/-- the `op_metrics` attribute of a `GlobalStats` dict as a record list (`none`: not a list of dicts) -/
+def recsOfJ : List JVal → Option (List Dict)
+  | [] => some []
+  | .obj kvs :: xs => (recsOfJ xs).map (fun r => kvs :: r)
+  | _ :: _ => none
+
+def gsOpMetrics (o : Dict) : Option (List Dict) :=
+  match dictGet o sOpMetrics with
+  | some (.arr xs) => recsOfJ xs
+  | _ => none
+
 end Stats
